@@ -766,6 +766,12 @@ fn run_case(vc: &VCase, stats: &mut Stats, genr: Option<(&mut Prng, usize)>, tot
         steps.push((coq_op(&op), obs(&w, &post, &o)));
         snap = post;
     }
+    // second oracle: the repository's own state invariants (verifreg / datacap parts)
+    let msgs = state_check_messages(&w.v);
+    for msg in msgs {
+        if msg.contains("has no power claim") { continue; } // miners created without power: unrelated
+        fails.push(json!({"class": "repo-state-invariant", "step": n, "what": [msg], "case": VCase { ops: done.clone() }}));
+    }
     for (k, v) in [("allocations_created", mon.created), ("allocations_claimed", mon.claimed), ("allocations_refunded", mon.refunded),
         ("claims_removed", mon.claims_removed), ("claim_extensions_by_datacap", mon.extensions), ("claim_term_extensions", mon.term_extensions),
         ("transfers_rolled_back_by_hook", mon.hook_rollbacks), ("modelled_panics", mon.expected_panics)] {
